@@ -1327,7 +1327,9 @@ def oracle_c09(sc, obs):
         for i, e in enumerate(tr):
             op, res, B = e["op"], e["res"], trace_before(tr, i)
             where = f"line {i + 1} ({' '.join(op)})"
-            if op[0] in ("nnbhd", "nnbrs") and int(op[1]) < n and not res.startswith("ok"):
+            if op[0] in ("nnbhd", "nnbrs") and int(op[1]) >= n:
+                continue  # a node that is not in the graph: outside the quantifier, tie only
+            if op[0] in ("nnbhd", "nnbrs") and not res.startswith("ok"):
                 bad.append(f"net-raise: {where}: gave {res}")
             elif op[0] in ("nnbhd", "nnbrs") and res.startswith("ok"):
                 v, ic, r = int(op[1]), op[2] == "1", int(op[3])
@@ -1353,7 +1355,7 @@ def oracle_c09(sc, obs):
                     wa = sorted(a for u in want for a in B["cells"][str(u)])
                     if sorted(e["val"]) != wa:
                         bad.append(f"net-neighbors: {where}: got {sorted(e['val'])}, agents on those nodes are {wa}")
-            elif op[0] == "nclc" and res.startswith("ok"):
+            elif op[0] == "nclc" and res.startswith("ok") and all(u < n for u in map(int, op[2:])):
                 wa = [a for u in map(int, op[2:]) for a in B["cells"][str(u)]]
                 if e["val"] != wa:
                     bad.append(f"net-clc: {where}: got {e['val']}, agents on those nodes are {wa}")
@@ -1475,6 +1477,19 @@ def hexOdd : List (Int × Int) := {f(od)}
 end Mesa.Legacy.Gen
 """
     return {"MesaModel/Gen/LegacyTables.lean": content}
+
+
+def guarded(oracle):
+    """an oracle must not crash on whatever a changed implementation returns: an observation the clauses cannot even evaluate
+    (a pos that is no cell of the space, a value of the wrong shape) is reported as a failed clause"""
+
+    def run(sc, obs):
+        try:
+            return oracle(sc, obs)
+        except Exception as e:  # noqa: BLE001
+            return [f"unevaluable: the observations are outside what the property's clauses can be evaluated on ({type(e).__name__}: {e})"]
+
+    return run
 
 
 def tier_from_argv():
